@@ -202,3 +202,34 @@ def crossing(shape, num_rivers, object_type, rng):
     ensures('only-valueerror', lambda: only_valueerror())
     ensures('well-formed', lambda: implies(returned(), lambda: well_formed(result(), shape)))
     ensures('exactly-one-exit', lambda: implies(returned(), lambda: exactly_one(result().grid, lambda o: isinstance(o, Exit))))
+
+
+# ---------------------------------------------------------------------------------------------------
+# rooms for fixed small layouts, symbolic shapes and every generator outcome (the layout dimension is
+# bounded: one contract per layout; np.linspace is modelled exactly, see lib.np_linspace)
+def rooms_contract(shape, rng):
+    requires(shape.height >= 1 and shape.width >= 1)   # quantifier of the property: shapes from 1x1 up
+    ensures('only-valueerror', lambda: only_valueerror())
+    ensures('well-formed', lambda: implies(returned(), lambda: well_formed(result(), shape)))
+    ensures('exactly-one-exit', lambda: implies(returned(), lambda: exactly_one(result().grid, lambda o: isinstance(o, Exit))))
+    ensures('only-walls-floor-and-the-exit', lambda: implies(returned(), lambda: forall_cells(
+        result().grid, lambda c: isinstance(result().grid[c], Wall) or isinstance(result().grid[c], Floor)
+        or isinstance(result().grid[c], Exit))))
+
+
+@contract(target=RS + 'rooms', args={'shape': 'Shape', 'layout': ('const', (1, 1)), 'rng': 'Rng'}, kwonly=['rng'],
+          props=['C13', 'C08'])
+def rooms_1x1(shape, layout, rng):
+    rooms_contract(shape, rng)
+
+
+@contract(target=RS + 'rooms', args={'shape': 'Shape', 'layout': ('const', (2, 2)), 'rng': 'Rng'}, kwonly=['rng'],
+          props=['C13', 'C08'])
+def rooms_2x2(shape, layout, rng):
+    rooms_contract(shape, rng)
+
+
+@contract(target=RS + 'rooms', args={'shape': 'Shape', 'layout': ('const', (1, 3)), 'rng': 'Rng'}, kwonly=['rng'],
+          props=['C13', 'C08'])
+def rooms_1x3(shape, layout, rng):
+    rooms_contract(shape, rng)
